@@ -66,6 +66,10 @@ def freeze(el):
             tuple(freeze(c) for c in el))
 
 
+def short(s: str, n: int = 400) -> str:
+    return s if len(s) <= n else s[: n // 3] + " [...] " + s[-(n - n // 3 - 7):]
+
+
 class deep_recursion:
     """the snapshot/compare functions recurse over (deliberately deep) trees; the interpreter's limit is raised around the oracle
     only, never around calls into the implementation (whose own behaviour under the default limit is part of what is observed)"""
@@ -527,7 +531,7 @@ def run_history(spec, seed: int, neutral: frozenset, skip_ops: frozenset, *, tie
                     with deep_recursion():
                         d = frozen_diff(mem[1], fz[1])
                     if d:
-                        out.problems.append(f"{f.name} [{label}]: " + "; ".join(x if len(x) < 700 else x[:200] + " [...] " + x[-400:] for x in d[:2]))
+                        out.problems.append(f"{f.name} [{label}]: " + "; ".join(short(x, 700) for x in d[:2]))
                         break
             # queries answer the same: the objects touched in this history
             for entry_ in out.ops:
@@ -700,7 +704,10 @@ def run(chk: lib.Check):
         try:
             out = run_history(spec, seed, frozenset(), frozenset(), tier=chk.tier, want_corr=want_corr, directed=directed)
         except Exception as e:  # noqa: BLE001
-            chk.broken.append(f"harness: history {spec['path'].name}:{seed} crashed: {type(e).__name__}: {e}")
+            import traceback
+            tb_ = traceback.extract_tb(e.__traceback__)
+            chk.broken.append(f"harness: history {spec['path'].name}:{seed} crashed: {type(e).__name__}: {e} at "
+                              + " < ".join(f"{f_.name}:{f_.lineno}" for f_ in reversed(tb_[-4:])))
             continue
         stats["histories"] += 1
         stats["created"] += out.created
@@ -738,7 +745,7 @@ def run(chk: lib.Check):
                 cur = run_history(spec, seed, frozenset(neutral), frozenset(), tier=chk.tier, want_corr=False, directed=directed)
             if neutral and not cur.problems:
                 for ft in sorted(neutral):
-                    chk.violation(KNOWN[ft], f"{spec['path'].name} seed {seed}: {out.problems[0][:400]}",
+                    chk.violation(KNOWN[ft], f"{spec['path'].name} seed {seed}: {short(out.problems[0])}",
                                   {"model": spec["path"].name, "seed": seed, "problems": out.problems,
                                    "ops": [list(e) if isinstance(e, tuple) else e for e in out.ops]})
                 continue
@@ -750,7 +757,7 @@ def run(chk: lib.Check):
                     continue
             if key is None:
                 key = f"history:{spec['path'].name}:{seed}"
-            chk.violation(key, f"{spec['path'].name} seed {seed}: {out.problems[0][:400]}",
+            chk.violation(key, f"{spec['path'].name} seed {seed}: {short(out.problems[0])}",
                           {"model": spec["path"].name, "seed": seed, "ops": [list(e) if isinstance(e, tuple) else e for e in out.ops],
                            "problems": out.problems})
     chk.coverage["histories"] = stats
